@@ -18,6 +18,7 @@ fn main() {
         }
         "layers" => h::eng_layers::main(rest),
         "layers-trace" => h::eng_layers::main_trace(rest),
+        "encfs" => h::eng_layers::main_encfs(rest),
         "writer" => h::eng_writer::main(rest),
         "repair" => h::eng_repair::main(rest),
         "reader" => h::eng_reader::main(rest),
